@@ -6,7 +6,7 @@ env = dict(os.environ); env.pop("NEMO_GUARDRAILS_VERIF", None)
 args = sys.argv[1:]
 cmd = ["/venv/bin/python", "-m", "pytest", "-q", "-p", "no:cacheprovider", "--timeout=900",
        "--continue-on-collection-errors", "--junitxml=" + out] + args
-subprocess.run(cmd, cwd="/repo", env=env, stdout=subprocess.DEVNULL, stderr=subprocess.DEVNULL)
+subprocess.run(cmd + (["--ignore=_seeded"] if os.environ.get("BASELINE_REPO") else []), cwd=os.environ.get("BASELINE_REPO", "/repo"), env=env, stdout=subprocess.DEVNULL, stderr=subprocess.DEVNULL)
 passed = set()
 for tc in ET.parse(out).getroot().iter("testcase"):
     if not any(c.tag in ("failure", "error", "skipped") for c in tc):
